@@ -167,6 +167,13 @@ def main(argv):
     try:
         if a.what == "replay":
             return cmd_replay(a)
+        if a.what == "exec-world":
+            from . import world as W
+            world = json.loads(sys.stdin.read(), object_hook=core._unbytes)
+            H = W.run_world(world)
+            out = {"procs": [W.public_hist(h) for h in H["procs"]], "final": H["final"]}
+            print("WORLD-JSON " + core.canon(out))
+            return EXIT_OK
         if a.what.startswith("selftest"):
             from . import selftest
             return selftest.main(a)
